@@ -51,6 +51,17 @@ CLAIMED.update({
          "Sequential consistency + atomic locked XCHG (x86-TSO differs only by store->load reordering, which locked instructions drain); aligned MOVL atomic; yieldFn modelled as a call without effect on the lock word; liveness/fairness outside; counterexamples are schedule traces (no native replay of an instruction-level schedule).", "7 C08"),
 })
 
+CLAIMED.update({
+ "C11": ("Bounded symbolic model checking of the real AML parser (ParseAML with all its passes) on well-formed programs of fixed shape with symbolic contents: every name segment, integer/string constant, flag byte and PkgLength encoding is decided by the solver; after a successful parse every declared object is located by its stream offset and checked for kind, name, absolute path (enclosing named scopes up to the root), integer/string arguments in order; method invocations before and after the declaration carry exactly the declared arguments.",
+         "Shapes are enumerated (three templates: ten kinds of named objects at the root and nested in a Device; Scope(\\_SB_) and a dual-name Scope through the predefined scope to a Device; forward and backward two-argument method calls), contents symbolic; this is not 'every program of the grammar': Scope targets that pass through two or more non-predefined objects, relative/parent-prefixed names, deferred buffers/while loops, multi-table loads and nesting depth > 2 are outside. kfmt.Fprintf stubbed while encoding.", "7 C11"),
+ "C12": ("Bounded symbolic model checking of the real ParseAML on malformed input: every payload of up to 2 (thorough 3) arbitrary bytes behind a valid header, and templates with unconstrained holes (Device with a dual-name path of 8 arbitrary name bytes; Field Connection buffer with arbitrary length prefix): never panics, call depth stays within a budget proportional to the input (exceeding it = non-termination), every []byte the tree refers to lies inside the table region, the tree stays a tree (parent chains end, child lists consistent in both directions).",
+         "Arbitrary inputs longer than 3 bytes only through the two templates; termination = call-depth 120 / 600 decisions / 20M instructions per path; kfmt.Fprintf stubbed while encoding.", "7 C12"),
+ "C14": ("Bounded symbolic model checking of the real locateRSDT and acpiDriver.DriverInit over raw firmware regions with symbolic bytes: RSDP found at the first 16-byte slot whose descriptor has the signature and a zero byte sum (revision-dependent size and root pointer), window unmapped on every path; RSDT/XSDT enumeration registers a listed table iff its bytes sum to zero, reports and skips bad ones, and registers the DSDT a checksum-valid FADT designates (32-bit pointer for revision < 2 roots, else the 64-bit one, 32-bit when that is zero).",
+         "Table lengths and entry addresses are written (concrete) by the harness; signatures pairwise distinct; quick tier: 1 plain table + FADT + DSDT with FADT body bytes zero, thorough: 3 tables, all bytes symbolic; mapping functions are the repository's test seams; kfmt.Fprintf replaced by a one-byte report.", "7 C14"),
+ "C16": ("Bounded symbolic model checking of the real kfmt ring buffer (Write/Read step lemmas over an arbitrary ring state of 2048 arbitrary bytes, checked at an arbitrary position), SetOutputSink hand-over (real io.Copy), PrefixWriter, and of hal.DetectHardware with 3 (4) mock drivers of arbitrary detection order byte, kind and probe/init outcome (real sort.Sort, bytes.Buffer, PrefixWriter): probes in non-decreasing order, failed drivers never active, first console/terminal win, terminal attached before it becomes the log sink, and the exact expected log text arrives on it once and in order.",
+         "Mock consoles do not implement LogoSetter/FontSetter (boot-command-line handling outside); driver names/versions fixed; ring Write <= 3 bytes, Read <= 4 bytes per step.", "7 C16"),
+})
+
 NOT_APPLICABLE = {
  "C20": "FindRedirects is filepath.Walk + go/parser + ast.CommentMap + fmt over a source tree on disk; the inputs are directory trees and Go source text reached through OS calls, reflection and ~40k lines of standard library that the SSA executor cannot encode, and the non-reproducibility in question comes from runtime map-iteration randomisation, which is not a function of any solver-visible input. No bounded version is within reach of solver-based checking; see DESIGN.md 8.1.",
 }
